@@ -40,11 +40,15 @@ def toIntC (l : Int) : Int :=
 
 def atoiC (s : Bytes) : Int := toIntC (strtolC s)
 
+/-- `xisdigit(*start)` (the terminating NUL is not a digit) -/
+def headIsDigit (start : Bytes) : Bool :=
+  match start with
+  | c :: _ => isDigitC c
+  | [] => false
+
 /-- `httpHeaderParseInt(start, &value)`: (return value ≠ 0, what `*value` holds afterwards) -/
 def parseInt (start : Bytes) : Bool × Int :=
-  let v := atoiC start
-  let firstIsDigit : Bool := match start with | c :: _ => isDigitC c | [] => false
-  if v = 0 ∧ firstIsDigit = false then (false, v) else (true, v)
+  if atoiC start = 0 ∧ headIsDigit start = false then (false, atoiC start) else (true, atoiC start)
 
 /-! ### `%d` -/
 
